@@ -176,10 +176,12 @@ func isNextOnNewLine(t1, t2 Token) bool {
 	// 	}
 	// }
 
-	// The second token is on the same line only if it
-	// starts on the line the first token (incl line breaks)
-	// ends on. A lower line number means the second token
-	// was spliced in by an import from further up the file,
-	// where the import directive stood on a line of its own.
-	return t1.Line+t1.NumLineBreaks() != t2.Line
+	// If the first token (incl line breaks) ends
+	// on a line earlier than the next token,
+	// then the second token is on a new line.
+	// So it is if it starts on a line before the
+	// first token's: it was then spliced in by an
+	// import from further up the file, where the
+	// import directive stood on a line of its own.
+	return t1.Line+t1.NumLineBreaks() < t2.Line || t2.Line < t1.Line
 }
